@@ -16,7 +16,9 @@ RULE = (
     "toffoli_gate and t_inverse on Choi-state inputs (every data qubit maximally entangled with a harness reference qubit, so one "
     "run fixes the whole unitary) and on all computational basis states; set_qubit_state on Hypothesis-drawn (theta, phi); "
     "parity_meas for every Pauli string over I,X,Y,Z of length 1..3 with and without leading '-' (168) on basis states and "
-    "Hypothesis-drawn random states, both outcomes forced; flavours vanilla and NV-transpiled.  Non-trivial = every case "
+    "Hypothesis-drawn random states, both outcomes forced; sessions of 1..4 toolbox calls on one connection (operands in any order out of 3..4 qubits, "
+    "parity strings on subsets, flushes anywhere, all outcomes read after the last flush) against the documented operators applied in order; "
+    "set_qubit_state angles also negative and beyond 2pi; flavours vanilla and NV-transpiled.  Non-trivial = every case "
     "except all-identity strings; distinct by (circuit, string, state, outcome, flavour)"
 )
 ASSUMPTIONS = [
@@ -26,17 +28,17 @@ ASSUMPTIONS = [
 SHARDS = {"quick": 4, "thorough": 16}
 
 
-def setup(flavour: str, n: int):
+def setup(flavour: str, n: int, max_qubits: int = 5):
     from netqasm.lang.instr.flavour import NVFlavour
     from netqasm.sdk.build_types import NVHardwareConfig
     from netqasm.sdk.qubit import Qubit
     from netqasm.sdk.transpile import NVSubroutineTranspiler
     from vlib import sim
 
-    kw: Dict[str, Any] = {"max_qubits": 5}
+    kw: Dict[str, Any] = {"max_qubits": max_qubits}
     fl = None
     if flavour == "nv":
-        kw.update(compiler=NVSubroutineTranspiler, hardware_config=NVHardwareConfig(5))
+        kw.update(compiler=NVSubroutineTranspiler, hardware_config=NVHardwareConfig(max_qubits))
         fl = NVFlavour()
     ctrl, conn = sim.fresh(sim.StateVectorExecutor, flavour=fl, **kw)
     ex = ctrl._executor
@@ -180,9 +182,115 @@ def check_parity(case) -> None:
         raise Failure(f"parity:outcome-mapping:{case['flavour']}", case, f"forced parity outcome {m_forced} was reported as {m_val}")
 
 
-def check(case) -> None:
+TOFFOLI = np.eye(8, dtype=complex)
+TOFFOLI[6, 6] = TOFFOLI[7, 7] = 0
+TOFFOLI[6, 7] = TOFFOLI[7, 6] = 1
+
+
+KF_BORROW = "nv-transpiler-borrows-unallocated-electron"
+
+
+class Excluded(Exception):
+    pass
+
+
+def check_session(case, open_findings=()) -> None:
+    """several toolbox calls on one connection (operands in any order, flushes anywhere, outcomes read at the end)"""
+    from netqasm.sdk.toolbox import parity_meas, t_inverse, toffoli_gate
+
+    n = case["n"]
+    # room for the data qubits, the ancilla and (single-communication-qubit devices) one free slot to move a qubit to
+    ctrl, conn, ex, qs = setup(case["flavour"], n, max_qubits=n + 2)
+    vec = np.array([complex(a, b) for a, b in case["state"]], dtype=complex)[: 2**n]
+    vec = vec / np.linalg.norm(vec)
+    inject(ex, conn, qs, vec)
+    forced: List[int] = []
+    model = vec.copy()
+    expected: List[int] = []
+    handles: List[Any] = []
+    for op in case["ops"]:
+        if op[0] == "parity":
+            forced.append(op[3] ^ (1 if op[2].startswith("-") else 0))
+    ex.outcomes = list(forced)
+    try:
+        for op in case["ops"]:
+            if op[0] == "toffoli":
+                if KF_BORROW in open_findings and case["flavour"] == "nv" and all(q.qubit_id != 0 for q in qs):
+                    raise Excluded(KF_BORROW)  # carbon-carbon gates while nothing is allocated at virtual id 0
+                toffoli_gate(*[qs[i] for i in op[1]])
+                model = qm.embed(TOFFOLI, list(op[1]), n) @ model
+            elif op[0] == "t_inverse":
+                t_inverse(qs[op[1]])
+                model = qm.embed(qm.T.conj().T, [op[1]], n) @ model
+            elif op[0] == "parity":
+                _, idx, bases_full, want = op
+                neg = bases_full.startswith("-")
+                P = qm.embed(pauli_string_op(bases_full.lstrip("-")), list(idx), n)
+                sgn = -1 if neg else 1
+                proj = {mm: (np.eye(2**n) + ((-1) ** mm) * sgn * P) / 2 for mm in (0, 1)}
+                pr = {mm: float(np.real(np.vdot(model, proj[mm] @ model))) for mm in (0, 1)}
+                m = want if pr[want] > 1e-9 else 1 - want
+                if min(pr.values()) > 1e-9 and min(pr.values()) < 1e-6:
+                    raise Rejected("outcome probability too close to the fallback threshold")
+                expected.append(m)
+                model = proj[m] @ model
+                model = model / np.linalg.norm(model)
+                handles.append(parity_meas([qs[i] for i in idx], bases_full))
+            elif op[0] == "flush":
+                conn.flush()
+        conn.flush()
+        got_m = [int(h) for h in handles]
+    except (Rejected, Excluded):
+        raise
+    except Exception as e:
+        raise Failure(f"session:raises:{case['flavour']}", case, f"{type(e).__name__}: {(str(e).splitlines() or [''])[0][:200]}")
+    if got_m != expected:
+        raise Failure(f"session:outcomes:{case['flavour']}", case, f"parity outcomes read after the last flush {got_m}, expected {expected} (forced raw outcomes {forced})")
+    if len(ex.sv.labels) != n:
+        raise Failure(f"session:ancilla-left:{case['flavour']}", case, f"{len(ex.sv.labels)} qubits in memory, expected {n}")
+    got = ex.sv.ordered([phys_of(ex, conn, q) for q in qs])
+    if not qm.vec_equal_up_to_phase(got, model, 1e-7):
+        raise Failure(f"session:state:{case['flavour']}", case, f"state after the sequence differs from the documented operators applied in order (overlap {abs(np.vdot(model, got)):.4f})")
+
+
+class Rejected(Exception):
+    pass
+
+
+@st.composite
+def st_session(draw):
+    fl = draw(st.sampled_from(["vanilla", "nv", "nv"]))
+    n = draw(st.integers(3, 4))
+    st_amp = st.tuples(st.floats(-1, 1, allow_nan=False), st.floats(-1, 1, allow_nan=False)).map(list)
+    amps = draw(st.lists(st_amp, min_size=2**n, max_size=2**n))
+    if sum(a * a + b * b for a, b in amps) < 1e-3:
+        amps[0] = [1.0, 0.0]
+    ops: List[Any] = []
+    for _ in range(draw(st.integers(1, 4))):
+        k = draw(st.integers(0, 9))
+        if k <= 2:
+            ops.append(["toffoli", draw(st.permutations(range(n)))[:3]])
+        elif k == 3:
+            ops.append(["t_inverse", draw(st.integers(0, n - 1))])
+        elif k <= 7:
+            m = draw(st.integers(1, 3))
+            idx = draw(st.permutations(range(n)))[:m]
+            letters = draw(st.lists(st.sampled_from("IXYZ"), min_size=m, max_size=m))
+            if all(c == "I" for c in letters):
+                letters[draw(st.integers(0, m - 1))] = draw(st.sampled_from("XYZ"))
+            ops.append(["parity", idx, ("-" if draw(st.booleans()) else "") + "".join(letters), draw(st.integers(0, 1))])
+        else:
+            ops.append(["flush"])
+        if draw(st.integers(0, 2)) == 0:
+            ops.append(["flush"])
+    return {"kind": "session", "flavour": fl, "n": n, "state": amps, "ops": ops}
+
+
+def check(case, open_findings=()) -> None:
     k = case["kind"]
-    if k == "unitary":
+    if k == "session":
+        check_session(case, open_findings)
+    elif k == "unitary":
         check_unitary(case)
     elif k == "state_prep":
         check_state_prep(case)
@@ -250,7 +358,27 @@ def shard(ctx: Ctx) -> None:
         check(case)
         stt.case(case, True, ["state_prep", fl])
 
-    ctx.search(st.tuples(st.floats(0, math.pi), st.floats(0, 2 * math.pi), st.sampled_from(["vanilla", "nv"])), body_prep, n // 2, name="c20-prep", salt=1)
+    st_angle = st.floats(0, 2 * math.pi) | st.floats(-4 * math.pi, 6 * math.pi) | st.sampled_from([0.0, -math.pi / 2, -math.pi, math.pi, 2 * math.pi, -1e-3, 3 * math.pi])
+    ctx.search(st.tuples(st.floats(0, math.pi) | st_angle, st_angle, st.sampled_from(["vanilla", "nv"])), body_prep, n // 2, name="c20-prep", salt=1)
+
+    def body_session(case):
+        try:
+            check(case, ctx.open_findings)
+        except Rejected as r:
+            stt.rejected[str(r)] += 1
+            return
+        except Excluded as e:
+            stt.excluded[str(e)] += 1
+            return
+        kinds = [op[0] for op in case["ops"]]
+        labels = ["session", case["flavour"], f"ops:{len([k for k in kinds if k != 'flush'])}"]
+        if kinds.count("parity") >= 2:
+            labels.append("session:>=2-parity")
+        if any(op[0] == "toffoli" and list(op[1]) != sorted(op[1]) for op in case["ops"]):
+            labels.append("session:permuted-toffoli")
+        stt.case(case, len([k for k in kinds if k != "flush"]) >= 2, labels, sample=case if len(case["ops"]) <= 3 else None)
+
+    ctx.search(st_session(), body_session, n * 2, name="c20-session", salt=2)
 
 
 def replay(case):
